@@ -1,14 +1,16 @@
 ------------------------------ MODULE MC_C02 ------------------------------
 EXTENDS O2OEnum, Json
-CONSTANTS MaxVariants, MaxFields, VMenu, FMenu, VGs, EGs
+CONSTANTS MaxVariants, MaxFields, VMenu, FMenu, VGs, EGs, VGModes
 VARIABLE in
-Init == \E d \in BOOLEAN, e \in EGs : in = [vs |-> <<>>, dflt |-> d, eg |-> e]
+\* vgm: how variant-level ghosts are spelled -- "both": #[ghosts(..)]; "flav": the ownership-specific instruction that matches the conversions of
+\* each twin enum alone (ghosts_owned on the owned twins, ghosts_ref on the by-reference twin)
+Init == \E d \in BOOLEAN, e \in EGs, m \in VGModes : in = [vs |-> <<>>, dflt |-> d, eg |-> e, vgm |-> m]
 AddVariant(sh, it, g) == Len(in.vs) < MaxVariants /\ in' = [in EXCEPT !.vs = Append(@, [shape |-> sh, it |-> it, fs |-> <<>>, vg |-> g])]
 AddField(f) == in.vs # <<>> /\ in.vs[Len(in.vs)].shape # "unit" /\ Len(in.vs[Len(in.vs)].fs) < MaxFields
                /\ in' = [in EXCEPT !.vs[Len(in.vs)].fs = Append(@, f)]
 Next == (\E sh \in {"unit", "tuple", "named"}, it \in VMenu, g \in VGs : AddVariant(sh, it, g)) \/ (\E f \in FMenu : AddField(f))
 Spec == Init /\ [][Next]_in
-Emit == WellFormed(in) => PrintT(<<"CASE", ToJson(in)>>)
+Emit == (WellFormed(in) /\ ((\A i \in DOMAIN in.vs : in.vs[i].vg = 0) => in.vgm = "both")) => PrintT(<<"CASE", ToJson(in)>>)
 \* design-level: bindings and uses agree -- every counterpart leaf read by From is one Into writes (same names / positions both ways)
 Symmetric == WellFormed(in) => \A i \in DOMAIN in.vs : ~IsGhostV(in.vs[i]) =>
    {w.leaf : w \in IntoExp(in, i).leaves} = {CF(in.vs[i], j) : j \in Mapped(in.vs[i])} \cup {VGLeaf(in.vs[i], k) : k \in 1..in.vs[i].vg}
